@@ -71,6 +71,11 @@ try:
         if markup is None:
             continue
         soup = bs4.BeautifulSoup(markup, parser.split('#')[0])
+        # values only the bs4 API can store: plain lists with non-string members, numbers, None, bytes
+        for i, t in enumerate(soup.find_all(['p', 'li'])):
+            t['data-v'] = [[3, '4'], 7, None, b'x', ['a', ['b', 1]], ('a', 'b')][i % 6]
+            if i % 2:
+                t['class'] = ['k', 5]
         for sel in spec['selectors']:
             def lab(xs):
                 return [[x.name, x.get('id')] for x in xs]
